@@ -146,6 +146,22 @@ func (pi *procInfo) isAccess(i ssa.Instruction) bool {
 	if pi.isDirectAccess(i) {
 		return true
 	}
+	// the façade's contract binding: what it reads from the chain is served as the syncer's data too
+	if fa, ok := i.(*ssa.FieldAddr); ok {
+		if pt, isP := fa.X.Type().Underlying().(*types.Pointer); isP {
+			if nt, isN := pt.Elem().(*types.Named); isN && nt.Obj().Pkg() != nil && nt.Obj().Pkg().Path() == core.P(pi.pkg) {
+				if st, isS := nt.Underlying().(*types.Struct); isS {
+					ft := st.Field(fa.Field).Type()
+					if p2, isP2 := ft.Underlying().(*types.Pointer); isP2 {
+						ft = p2.Elem()
+					}
+					if fn, isFN := ft.(*types.Named); isFN && fn.Obj().Pkg() != nil && strings.Contains(fn.Obj().Pkg().Path(), "cdk-contracts-tooling/contracts") {
+						return true
+					}
+				}
+			}
+		}
+	}
 	if cc := core.AsCall(i); cc != nil {
 		if callee := cc.StaticCallee(); callee != nil && pi.touches[callee] {
 			return true
@@ -200,7 +216,7 @@ func guardObligation(c *core.Ctx, rule string, pi *procInfo, fn *ssa.Function, c
 	// before the guard such as a cache hit) returns ErrInconsistentState
 	sx := core.NewSymx()
 	_ = halted
-	bad := (&core.Walk{EdgeOK: core.Forbid(notHalted), Target: func(i ssa.Instruction) bool {
+	bad := (&core.Walk{EdgeOK: core.Forbid(notHalted), TargetPath: func(i ssa.Instruction, path []int) bool {
 		r, ok := i.(*ssa.Return)
 		if !ok || (fn.Recover != nil && r.Block() == fn.Recover) {
 			return false
@@ -212,7 +228,7 @@ func guardObligation(c *core.Ctx, rule string, pi *procInfo, fn *ssa.Function, c
 		if !types.Identical(last.Type(), types.Universe.Lookup("error").Type()) {
 			return true
 		}
-		return sx.Of(last).String() != errInconsistent
+		return sx.Of(core.ResolveOnPath(last, path)).String() != errInconsistent
 	}}).From(core.Entry(fn), nil)
 	if bad != nil {
 		c.Violate(rule, construct, bad.Instr.Pos(), "a return is reachable without passing the !isHalted() edge and does not return sync.ErrInconsistentState: a halted syncer would answer this query ("+core.PathStr(bad)+")")
